@@ -46,6 +46,10 @@ func sigClass(sig string) string {
 		return strings.Join(p[:len(p)-1], "/") // drop operand source
 	case "F2":
 		return p[0] + "/" + p[1]
+	case "F3":
+		return shapeClass(sig)
+	case "F4acc":
+		return strings.Join(p[:3], "/") // form without index type / value
 	}
 	return sig
 }
@@ -123,6 +127,8 @@ func familyByName(name string) *wgen.Family {
 	switch name {
 	case "F6c":
 		return wgen.F6c()
+	case "F4acc":
+		return wgen.F4Access()
 	case "F15ops":
 		return wgen.F15Ops()
 	case "F15acc":
